@@ -10,7 +10,16 @@ Streams
 * rect-exact : dyadic-lattice bounds and slack, integer-row cones → the float path of the code is
   exact → EQUALITY with the model, boundary included (touching cases are constructed so that a
   vertex-pair functional is exactly 0, and one lattice step on either side of it).
-* rect-float : arbitrary floats, bundled orders / random float cones → borderline band.
+  A quarter of the cases are small regions FAR from the origin (side 2^-13..2^-6 at |centre| 8..1000)
+  whose worst vertex pair fails/holds by less than a region side, so every corner matters.
+* rect-intW  : the same, with the cone matrix given as an int64 / int32 array or nested int lists (as in
+  the `OrderingCone` docstring) and fractional dyadic boxes / slacks — equality on the stored `W`.
+* hist       : the same two region objects are queried, mutated through a public mutator (`update` with
+  `intersect_iteratively` on/off, `intersect`, assignment to `lower`/`upper`; ellipsoid `update`,
+  assignment to `center`/`sigma`/`alpha`) and queried again: every answer must be the model's verdict
+  for the regions' CURRENT attributes (read back from the objects).
+* rect-float : arbitrary floats, bundled orders / random float cones → borderline band
+  (also small regions far from the origin: side 1e-4..1e-2 at |centre| 10..1000).
 * ell        : ellipsoids (SOCP per facet in the code) → borderline band.
 * badslack   : wrong slack size → `ValueError` in both.
 
@@ -33,7 +42,9 @@ RULE = ("cases: (order, region pair, slack); relation shapes identical/nested/ov
         "touching-vertex/disjoint-dominated/disjoint-incomparable crossed with a placement mode that moves "
         "region 2 so that a chosen facet functional's minimum hits a target (0, ±1 lattice step, ±band "
         "multiples, far); sizes 2^-13..2^7 (1e-4..1e2), anisotropy ≤1e4, correlation ≤0.99, cones with N≥m "
-        "facets, scalar/vector slack, wrong-size slack; non-trivial = slack accepted, verdict compared "
+        "facets (float, int64, int32, nested-int-list cone matrices), scalar/vector slack, wrong-size slack; "
+        "small regions far from the origin (side 1e-4..1e-2, |centre| up to 1000); query–mutate–query histories "
+        "through every public mutator of both region classes; non-trivial = slack accepted, verdict compared "
         "(exact or robust) and the shape does not fix the verdict; distinct by the full numeric case")
 ASSUMPTIONS = [
     "rect-exact stream: dyadic-lattice data and integer cone rows, so numpy's float path is exact",
@@ -67,7 +78,13 @@ def build_order(spec):
 
     t = spec["t"]
     if t == "int":
-        o = PolyhedralConeOrder(OrderingCone(np.array(INT_CONES[spec["name"]], dtype=float)))
+        dt = spec.get("dtype", "float")
+        rows = [list(r) for r in INT_CONES[spec["name"]]]
+        if dt == "list":      # nested Python int lists (np.array(...) inside OrderingCone → int64)
+            o = PolyhedralConeOrder(OrderingCone(rows))
+        else:                 # "float" | "int64" | "int32": the class docstring itself uses an int array
+            o = PolyhedralConeOrder(OrderingCone(np.array(rows, dtype={"float": float, "int64": np.int64,
+                                                                       "int32": np.int32}[dt])))
     elif t == "W":
         o = PolyhedralConeOrder(OrderingCone(np.array(spec["W"], dtype=float)))
     elif t == "comp":
@@ -175,18 +192,30 @@ def dy(rng, lo, hi, p):
     return Fraction(rng.randint(lo, hi), 2 ** p)
 
 
-def gen_rect_exact(ctx, rng):
+def gen_rect_exact(ctx, rng, dtype=None):
     name = rng.choice(sorted(INT_CONES))
     W = INT_CONES[name]
     m = len(W[0])
     p = rng.choice([0, 1, 2, 4, 8, 13])            # lattice 2^-p
     big = rng.choice([1, 1, 4, 16, 128])           # overall magnitude
+    if dtype is not None:                          # integer-dtype cone: fractional data matter
+        p = rng.choice([1, 2, 4, 8])
+        big = rng.choice([1, 1, 2, 4, 16])
+    remote = rng.random() < 0.25
+    if remote:                                     # small region far from the origin:
+        p = rng.choice([10, 13])                   # side 2^-13..2^-6 (1e-4..1.5e-2), |centre| 8..1000
+        big = rng.choice([8, 64, 128, 1000, 1000])
     step = Fraction(1, 2 ** p)
     K = big * 2 ** p
     rel = rng.choice(REL)
     c1 = [dy(rng, -K, K, p) for _ in range(m)]
     h1 = [dy(rng, 1, max(1, K // rng.choice([1, 2, 8, 64])), p) for _ in range(m)]
     h2 = [dy(rng, 1, max(1, K // rng.choice([1, 2, 8, 64])), p) for _ in range(m)]
+    if remote:
+        c1 = [dy(rng, K // 2, K, p) * rng.choice([-1, 1]) for _ in range(m)]
+        hmax = 2 ** (p - 7)
+        h1 = [dy(rng, 1, rng.choice([2, 8, hmax]), p) for _ in range(m)]
+        h2 = [dy(rng, 1, rng.choice([2, 8, hmax]), p) for _ in range(m)]
     c2 = list(c1)
     if rel == "identical":
         h2 = list(h1)
@@ -197,7 +226,8 @@ def gen_rect_exact(ctx, rng):
     elif rel == "overlap":
         c2 = [c + h * rng.choice([-1, 0, 1]) for c, h in zip(c1, h1)]
     elif rel == "disjoint":
-        c2 = [c + (a + b + dy(rng, 0, K, p)) * rng.choice([-1, 1]) for c, a, b in zip(c1, h1, h2)]
+        c2 = [c + (a + b + dy(rng, 0, 64 if remote else K, p)) * rng.choice([-1, 1])
+              for c, a, b in zip(c1, h1, h2)]
     elif rel == "degenerate":
         for j in range(m):
             if rng.random() < 0.5:
@@ -212,14 +242,15 @@ def gen_rect_exact(ctx, rng):
     u1 = [c + h for c, h in zip(c1, h1)]
     # slack
     sk = rng.choice(["zero", "scalar", "scalar", "vector", "vector", "negscalar"])
+    KS = 256 if remote else K                      # slack magnitude (lattice steps)
     if sk == "zero":
         svals, form = [Fraction(0)], rng.choice(["py", "0d", "vec"])
     elif sk == "scalar":
-        svals, form = [dy(rng, 0, max(1, K // 4), p)], rng.choice(["py", "0d", "vec"])
+        svals, form = [dy(rng, 0, max(1, KS // 4), p)], rng.choice(["py", "0d", "vec"])
     elif sk == "negscalar":
-        svals, form = [-dy(rng, 0, max(1, K // 4), p)], rng.choice(["py", "0d", "vec"])
+        svals, form = [-dy(rng, 0, max(1, KS // 4), p)], rng.choice(["py", "0d", "vec"])
     else:
-        svals, form = [dy(rng, -max(1, K // 8), max(1, K // 4), p) for _ in range(m)], "vec"
+        svals, form = [dy(rng, -max(1, KS // 8), max(1, KS // 4), p) for _ in range(m)], "vec"
     sfull = svals * m if len(svals) == 1 and m != 1 else list(svals)
     if len(sfull) != m:
         sfull = [svals[0]] * m
@@ -229,32 +260,43 @@ def gen_rect_exact(ctx, rng):
     l2 = [c - h for c, h in zip(c2, h2)]
     u2 = [c + h for c, h in zip(c2, h2)]
     mode = rng.choice(MODES) if rel != "corner" else rng.choice(["asis", "asis", "step+", "step-"])
+    if remote and rng.random() < 0.5:
+        # the worst vertex pair fails / holds by less than a region side: every corner matters
+        mode = rng.choice(["inside-", "inside-", "inside+"])
     if mode not in ("asis",):
         dirs = int_dirs(name)
         marg = rect_margins(W, l1, u1, l2, u2, sfull)
         target = {"touch": Fraction(0), "step+": step, "step-": -step,
                   "far+": Fraction(K, 2 ** p) * 4 + 1, "far-": -(Fraction(K, 2 ** p) * 4 + 1),
-                  "random": dy(rng, -4, 4, p), "incomparable": Fraction(0)}[mode]
+                  "random": dy(rng, -4, 4, p) if not remote else dy(rng, -64, 64, p),
+                  "incomparable": Fraction(0),
+                  "inside-": -dy(rng, 1, max(1, int(min(h1 + h2) / step)), p),
+                  "inside+": dy(rng, 1, max(1, int(min(h1 + h2) / step)), p)}[mode]
         best = None
-        for _ in range(6):
-            n, d = rng.choice(dirs)
+        order_ = list(dirs)
+        rng.shuffle(order_)
+        for n, d in (order_ + order_)[:max(6, len(order_))]:
             wd = sum(a * b for a, b in zip(W[n], d))
             lam = (target - marg[n]) / wd
             shift = [lam * x for x in d]
             if mode == "incomparable":
                 # move sideways: a direction that is neither in the cone nor in its negative if possible
-                shift = [dy(rng, -K, K, p) for _ in range(m)]
+                shift = [dy(rng, -(256 if remote else K), 256 if remote else K, p) for _ in range(m)]
             nl2 = [a + b for a, b in zip(l2, shift)]
             nu2 = [a + b for a, b in zip(u2, shift)]
             nm = rect_margins(W, l1, u1, nl2, nu2, sfull)
             best = (nl2, nu2)
-            if mode == "incomparable" or all(x >= target for x in nm) or rng.random() < 0.15:
+            if mode == "incomparable" or all(x >= target for x in nm) or rng.random() < 0.05:
                 break
         l2, u2 = best
-    case = {"kind": "rect", "exact": True, "order": {"t": "int", "name": name},
+    spec = {"t": "int", "name": name}
+    if dtype is not None:
+        spec["dtype"] = dtype
+    case = {"kind": "rect", "exact": True, "order": spec,
             "l1": [float(x) for x in l1], "u1": [float(x) for x in u1],
             "l2": [float(x) for x in l2], "u2": [float(x) for x in u2],
-            "slack": [float(x) for x in svals], "sform": form, "shape": rel + "/" + mode}
+            "slack": [float(x) for x in svals], "sform": form,
+            "shape": ("remote-" if remote else "") + rel + "/" + mode}
     # exactness guard of the generator itself: every number must fit comfortably in a double
     for k in ("l1", "u1", "l2", "u2", "slack"):
         for x, y in zip(case[k], {"l1": l1, "u1": u1, "l2": l2, "u2": u2, "slack": svals}[k]):
@@ -307,6 +349,11 @@ def gen_rect_float(ctx, rng, nprng):
     h2 = 10.0 ** nprng.uniform(-4, 2, size=m) * (1 if rng.random() < 0.5 else 10.0 ** nprng.uniform(-4, 2) / 100)
     h1 = np.clip(h1, 1e-4 / 2, 1e2 / 2)
     h2 = np.clip(h2, 1e-4 / 2, 1e2 / 2)
+    remote = rng.random() < 0.25
+    if remote:   # size 1e-4..1e-2 at |centre| 10..1000
+        c1 = 10.0 ** nprng.uniform(1, 3, size=m) * nprng.choice([-1, 1], size=m)
+        h1 = 10.0 ** nprng.uniform(-4, -2, size=m) / 2
+        h2 = 10.0 ** nprng.uniform(-4, -2, size=m) / 2
     rel = rng.choice(["identical", "nested12", "nested21", "overlap", "disjoint"])
     c2 = c1.copy()
     if rel == "identical":
@@ -323,11 +370,11 @@ def gen_rect_float(ctx, rng, nprng):
     if sk == "zero":
         svals, form = [0.0], rng.choice(["py", "0d", "vec"])
     elif sk == "scalar":
-        svals, form = [float(10.0 ** nprng.uniform(-4, 1))], rng.choice(["py", "0d", "vec"])
+        svals, form = [float(10.0 ** nprng.uniform(-4, -2 if remote else 1))], rng.choice(["py", "0d", "vec"])
     elif sk == "neg":
-        svals, form = [-float(10.0 ** nprng.uniform(-4, 0))], rng.choice(["py", "0d", "vec"])
+        svals, form = [-float(10.0 ** nprng.uniform(-4, -2 if remote else 0))], rng.choice(["py", "0d", "vec"])
     else:
-        svals, form = [float(x) for x in nprng.normal(size=m) * 10.0 ** nprng.uniform(-4, 1)], "vec"
+        svals, form = [float(x) for x in nprng.normal(size=m) * 10.0 ** nprng.uniform(-4, -2 if remote else 1)], "vec"
     sfull = np.array(svals * m if len(svals) == 1 else svals)[:m]
     l1, u1, l2, u2 = c1 - h1, c1 + h1, c2 - h2, c2 + h2
     scale = max(1.0, np.abs(np.concatenate([l1, u1, l2, u2, sfull])).max()) * max(1.0, np.abs(W).sum(axis=1).max())
@@ -351,7 +398,7 @@ def gen_rect_float(ctx, rng, nprng):
             return None
     return {"kind": "rect", "exact": False, "order": spec,
             "l1": l1.tolist(), "u1": u1.tolist(), "l2": l2.tolist(), "u2": u2.tolist(),
-            "slack": svals, "sform": form, "shape": rel + "/" + mode}
+            "slack": svals, "sform": form, "shape": ("remote-" if remote else "") + rel + "/" + mode}
 
 
 def rand_sigma(rng, nprng, m):
@@ -464,10 +511,105 @@ def gen_badslack(ctx, rng, nprng):
             "shape": "badslack", "sigma": "iso"}
 
 
+# ---- history stream: the same two region objects are queried, mutated through a public mutator, queried again
+def _dybox(rng, m, p, K):
+    c = [dy(rng, -K, K, p) for _ in range(m)]
+    h = [dy(rng, 0, max(1, K // rng.choice([1, 2, 8])), p) for _ in range(m)]
+    return [float(a - b) for a, b in zip(c, h)], [float(a + b) for a, b in zip(c, h)]
+
+
+def gen_hist_rect(ctx, rng):
+    # m ≥ 2: RectangularConfidenceRegion.update squeezes a 1×1 covariance to 0-d and np.diag rejects it
+    # (single-objective update is not part of this property)
+    name = rng.choice(sorted(k for k in INT_CONES if len(INT_CONES[k][0]) >= 2))
+    m = len(INT_CONES[name][0])
+    p = rng.choice([1, 2, 4])
+    K = rng.choice([2, 4, 16]) * 2 ** p
+    l1, u1 = _dybox(rng, m, p, K)
+    l2, u2 = _dybox(rng, m, p, K)
+    dvec = int_dirs(name)[0][1]                       # integer direction inside the cone
+    far = [float(6 * (K // 2 ** p) * x) for x in dvec]
+
+    def up(v):
+        return [a + b for a, b in zip(v, far)]
+
+    if rng.random() < 0.6:   # start from a dominated configuration so that later answers have to change
+        l2, u2 = up(l2), up(u2)
+    steps = []
+    for _ in range(rng.randint(2, 6)):
+        op = rng.choice(["update", "update", "intersect", "intersect", "assign", "assign_lower", "assign_upper"])
+        tgt = rng.choice([1, 2])
+        st = {"op": op, "target": tgt}
+        if op == "update":
+            st["mean"] = [float(dy(rng, -K, 2 * K, p)) for _ in range(m)]
+            sd = [dy(rng, 0, max(1, K // 2), p) for _ in range(m)]     # exact square roots
+            st["var"] = [float(x * x) for x in sd]
+            st["scale"] = float(rng.choice([Fraction(1), Fraction(1, 2), Fraction(2), Fraction(3, 2)]))
+            st["offdiag"] = float(dy(rng, -2, 2, 2))                   # ignored by the rectangle (only diag is used)
+            if tgt == 2 and rng.random() < 0.6:
+                st["mean"] = up(st["mean"])
+        elif op in ("intersect", "assign"):
+            st["lower"], st["upper"] = _dybox(rng, m, p, 2 * K)
+            if tgt == 2 and rng.random() < 0.6:
+                st["lower"], st["upper"] = up(st["lower"]), up(st["upper"])
+        else:
+            st["delta"] = [float(dy(rng, 0, K, p)) for _ in range(m)]  # lower -= delta / upper += delta keeps l ≤ u
+        steps.append(st)
+    sk = rng.choice(["zero", "scalar", "vector"])
+    if sk == "zero":
+        svals, form = [0.0], rng.choice(["py", "0d", "vec"])
+    elif sk == "scalar":
+        svals, form = [float(dy(rng, -K // 4, K // 2, p))], rng.choice(["py", "0d", "vec"])
+    else:
+        svals, form = [float(dy(rng, -K // 4, K // 2, p)) for _ in range(m)], "vec"
+    return {"kind": "hist", "region": "rect", "order": {"t": "int", "name": name}, "l1": l1, "u1": u1, "l2": l2,
+            "u2": u2, "iter": [rng.random() < 0.5, rng.random() < 0.5], "steps": steps, "slack": svals,
+            "sform": form, "shape": "hist"}
+
+
+def gen_hist_ell(ctx, rng, nprng):
+    spec = pick_order(ctx, rng, nprng)
+    order = build_order(spec)
+    N, m = np.array(order.ordering_cone.W).shape
+    if m < 2:
+        return None
+
+    def region():
+        S, _ = rand_sigma(rng, nprng, m)
+        S = S / max(1e-300, abs(S).max())             # unit-scale shapes; size through alpha
+        return (nprng.normal(size=m) * 3).tolist(), S.tolist(), float(10.0 ** nprng.uniform(-2, 0.5))
+
+    c1, S1, a1 = region()
+    c2, S2, a2 = region()
+    d = interior_dir(np.array(order.ordering_cone.W, dtype=float))
+    if rng.random() < 0.6:
+        c2 = (np.array(c2) + 12 * d).tolist()
+    steps = []
+    for _ in range(rng.randint(1, 3)):
+        op = rng.choice(["update", "update", "assign_center", "assign_sigma", "assign_alpha"])
+        st = {"op": op, "target": rng.choice([1, 2])}
+        c, S, a = region()
+        if rng.random() < 0.5:
+            c = (np.array(c) + rng.choice([-12, 12]) * d).tolist()
+        if op == "update":
+            st.update({"mean": c, "cov": S, "scale": a})
+        elif op == "assign_center":
+            st["center"] = c
+        elif op == "assign_sigma":
+            st["sigma"] = S
+        else:
+            st["alpha"] = a
+        steps.append(st)
+    svals, form = ([0.0], "0d") if rng.random() < 0.5 else ([float(x) for x in nprng.uniform(0, 0.5, size=N)], "vec")
+    return {"kind": "hist", "region": "ell", "order": spec, "c1": c1, "S1": S1, "a1": a1, "c2": c2, "S2": S2,
+            "a2": a2, "steps": steps, "slack": svals, "sform": form, "shape": "hist"}
+
+
 def gen(ctx):
     rng, nprng = ctx.rng, ctx.nprng
-    plan = [("rect_exact", ctx.n(320, 60000)), ("rect_float", ctx.n(100, 15000)),
-            ("ell", ctx.n(170, 30000)), ("badslack", ctx.n(24, 1500))]
+    plan = [("rect_exact", ctx.n(320, 60000)), ("rect_intW", ctx.n(90, 12000)),
+            ("rect_float", ctx.n(100, 15000)), ("ell", ctx.n(170, 30000)),
+            ("hist_rect", ctx.n(40, 5000)), ("hist_ell", ctx.n(12, 1500)), ("badslack", ctx.n(24, 1500))]
     for stream, cnt in plan:
         k = 0
         tries = 0
@@ -475,6 +617,12 @@ def gen(ctx):
             tries += 1
             if stream == "rect_exact":
                 case = gen_rect_exact(ctx, rng)
+            elif stream == "rect_intW":
+                case = gen_rect_exact(ctx, rng, dtype=rng.choice(["int64", "int32", "list"]))
+            elif stream == "hist_rect":
+                case = gen_hist_rect(ctx, rng)
+            elif stream == "hist_ell":
+                case = gen_hist_ell(ctx, rng, nprng)
             elif stream == "rect_float":
                 case = gen_rect_float(ctx, rng, nprng)
             elif stream == "ell":
@@ -518,14 +666,21 @@ def run_case(ctx, case):
     shape = case["shape"]
     ctx.count("order_" + case["order"]["t"])
     ctx.count("slackform_%s_%d" % (case["sform"], min(len(case["slack"]), 2)))
+    if case["kind"] == "hist":
+        _run_hist(ctx, case, order, W, ws, slack, ss)
+        return
     if case["kind"] == "rect":
+        if case["order"].get("dtype"):
+            ctx.count("cone_dtype_" + case["order"]["dtype"])
         l1, u1, l2, u2 = (np.array(case[k], dtype=float) for k in ("l1", "u1", "l2", "u2"))
         r1 = RectangularConfidenceRegion(len(l1), l1, u1)
         r2 = RectangularConfidenceRegion(len(l2), l2, u2)
         impl, ekey = _impl(order, r1, r2, slack)
         args = [ws, core.qvec(l1), core.qvec(u1), core.qvec(l2), core.qvec(u2), ss]
         model = ctx.ask("rect", *args)
-        stream = "rect_exact" if case.get("exact") else "rect_float"
+        stream = ("rect_intW" if case["order"].get("dtype") else "rect_exact") if case.get("exact") else "rect_float"
+        if shape.startswith("remote-"):
+            ctx.count("remote_small_" + stream)
         ctx.count("stream_" + stream)
         if model not in ("0", "1", "ValueError"):
             raise RuntimeError("driver answered %r" % model)
@@ -588,6 +743,106 @@ def run_case(ctx, case):
     _band(ctx, case, "ell", impl, model, lo, hi)
 
 
+def _lattice_ok(arrs):
+    """all numbers are multiples of 2^-24 of magnitude < 2^20: the float path of the rectangle test is exact"""
+    for a in arrs:
+        for x in np.asarray(a, dtype=float).ravel():
+            f = core.frac(x)
+            if abs(f) >= 2 ** 20 or (2 ** 24) % f.denominator != 0:
+                return False
+    return True
+
+
+def _apply_step(kind, r, st):
+    if kind == "rect":
+        if st["op"] == "update":
+            m = len(st["mean"])
+            cov = np.full((m, m), st["offdiag"], dtype=float)
+            cov[np.diag_indices(m)] = st["var"]
+            r.update(np.array(st["mean"], dtype=float), cov, np.array(st["scale"]))
+        elif st["op"] == "intersect":
+            r.intersect(np.array(st["lower"], dtype=float), np.array(st["upper"], dtype=float))
+        elif st["op"] == "assign":
+            r.lower = np.array(st["lower"], dtype=float)
+            r.upper = np.array(st["upper"], dtype=float)
+        elif st["op"] == "assign_lower":
+            r.lower = np.array(r.lower, dtype=float) - np.array(st["delta"], dtype=float)
+        else:
+            r.upper = np.array(r.upper, dtype=float) + np.array(st["delta"], dtype=float)
+    else:
+        if st["op"] == "update":
+            r.update(np.array(st["mean"], dtype=float), np.array(st["cov"], dtype=float), np.array(st["scale"]))
+        elif st["op"] == "assign_center":
+            r.center = np.array(st["center"], dtype=float)
+        elif st["op"] == "assign_sigma":
+            r.sigma = np.array(st["sigma"], dtype=float)
+        else:
+            r.alpha = st["alpha"]
+
+
+def _run_hist(ctx, case, order, W, ws, slack, ss):
+    """query, mutate through a public mutator, query again: every answer must be the model's verdict for
+    the CURRENT attributes of the two region objects (read back from the objects after the mutation)"""
+    from vopy.confidence_region import EllipsoidalConfidenceRegion, RectangularConfidenceRegion
+
+    N, m = W.shape
+    kind = case["region"]
+    ctx.count("stream_hist_" + kind)
+    if kind == "rect":
+        r1 = RectangularConfidenceRegion(m, np.array(case["l1"], dtype=float), np.array(case["u1"], dtype=float),
+                                         intersect_iteratively=bool(case["iter"][0]))
+        r2 = RectangularConfidenceRegion(m, np.array(case["l2"], dtype=float), np.array(case["u2"], dtype=float),
+                                         intersect_iteratively=bool(case["iter"][1]))
+    else:
+        r1 = EllipsoidalConfidenceRegion(m, np.array(case["c1"], dtype=float), np.array(case["S1"], dtype=float),
+                                         float(case["a1"]))
+        r2 = EllipsoidalConfidenceRegion(m, np.array(case["c2"], dtype=float), np.array(case["S2"], dtype=float),
+                                         float(case["a2"]))
+    answers = []
+    for k in range(len(case["steps"]) + 1):
+        if k > 0:
+            st = case["steps"][k - 1]
+            _apply_step(kind, r1 if st["target"] == 1 else r2, st)
+            ctx.count("hist_op_%s_%s" % (kind, st["op"] + ("_iter" if kind == "rect" and st["op"] == "update"
+                                                              and case["iter"][st["target"] - 1] else "")))
+        impl, ekey = _impl(order, r1, r2, slack)
+        if kind == "rect":
+            cur = [np.array(x, dtype=float) for x in (r1.lower, r1.upper, r2.lower, r2.upper)]
+            args = [ws] + [core.qvec(x) for x in cur] + [ss]
+            model = ctx.ask("rect", *args)
+            if _lattice_ok(cur + [np.array(case["slack"], dtype=float)]):
+                expect = model
+            else:
+                data = np.concatenate(cur + [np.array(case["slack"], dtype=float)])
+                t = TAU * max(1.0, float(np.abs(data).max())) * max(1.0, float(np.abs(W).sum(axis=1).max()))
+                lo, hi = ctx.ask("recttol", *args, core.q(t)), ctx.ask("recttol", *args, core.q(-t))
+                expect = lo if lo == hi else None
+        else:
+            c1, S1, a1 = np.array(r1.center, dtype=float), np.array(r1.sigma, dtype=float), float(r1.alpha)
+            c2, S2, a2 = np.array(r2.center, dtype=float), np.array(r2.sigma, dtype=float), float(r2.alpha)
+            args = [ws, core.qvec(c1), core.qmat(S1), core.q(a1), core.qvec(c2), core.qmat(S2), core.q(a2), ss]
+            model = ctx.ask("ell", *args)
+            sfull = np.array(_full(case["slack"], N), dtype=float)
+            t = TAU * ell_scale(W, c1, S1, a1, c2, S2, a2, sfull)
+            lo, hi = ctx.ask("elltol", *args, core.q(t)), ctx.ask("elltol", *args, core.q(-t))
+            expect = lo if lo == hi else None
+        if model not in ("0", "1"):
+            raise RuntimeError("driver answered %r in a history case" % model)
+        if expect is None:
+            ctx.count("hist_%s_borderline" % kind)
+        elif impl != expect:
+            ctx.violation("hist-%s-decision" % kind, "after %s the is_dominated answer is not the ∀∀ verdict for "
+                          "the regions' current attributes" % ("construction" if k == 0 else
+                                                               "mutation through " + case["steps"][k - 1]["op"]),
+                          case, detail={"query": k, "impl": impl, "model": model, "ekey": ekey})
+        else:
+            ctx.count("hist_%s_query_%s" % (kind, expect))
+        answers.append(expect)
+    changed = len({a for a in answers if a is not None}) > 1
+    ctx.count("hist_verdict_%s" % ("changes" if changed else "constant"))
+    ctx.case_done(case, changed, canon=_canon(case))
+
+
 def _check_vertices(ctx, case, l, u):
     """`hyperrectangle_get_vertices` against `Rect.vertices`: same corner set (F), same order (info)"""
     from vopy.utils import hyperrectangle_get_vertices
@@ -599,8 +854,13 @@ def _check_vertices(ctx, case, l, u):
     elif sorted(got) == sorted(mod):
         ctx.count("vertices_order_differs_info")
     else:
-        ctx.violation("rect-vertices", "hyperrectangle_get_vertices does not return the corner set of the box",
-                      case, kind="F", detail={"impl": [[str(x) for x in r] for r in got]})
+        ctx.count("vertices_set_differs")
+        if not ctx.__dict__.get("_c09_vert_reported"):
+            # reported once per worker: ctx keeps only the first 20 violation records, and a flood of these (F)
+            # records must not crowd out an (R) `rect-decision` found later in the run
+            ctx.__dict__["_c09_vert_reported"] = True
+            ctx.violation("rect-vertices", "hyperrectangle_get_vertices does not return the corner set of the box",
+                          case, kind="F", detail={"impl": [[str(x) for x in r] for r in got]})
 
 
 def _full(svals, k):
